@@ -52,6 +52,14 @@ func (q *Sched) Explore() *vrt.Explorer {
 			})
 	}
 	x.Run()
+	if sh == 0 {
+		tr := vrt.Replay(q.Body, nil, q.MaxSteps)
+		t := tr.Trace
+		if len(t) > 40 {
+			t = append(append([]string{}, t[:40]...), fmt.Sprintf("… %d more steps", len(tr.Trace)-40))
+		}
+		r.Sample(map[string]interface{}{"harness": q.Name, "schedule": "default (0 deviations)", "steps": t})
+	}
 	r.Count("executions", x.Executions)
 	r.Count("transitions", x.Transitions)
 	r.Count("tree_nodes", x.TreeNodes)
